@@ -26,12 +26,14 @@ DecExplicitPrime(b, o, e) ==
               order |-> od.v, cofactor |-> cf.v])))))))
 
 (* CurveTypeRule: selector 1 -> explicit prime, 3 -> named group, anything else Switch *)
+(* (DecEcContent is the public selector-taking parser ECParametersContent::parse(i, curve_type)) *)
+DecEcContent(ct, b, o, e) ==
+  IF ct = 1 THEN DecExplicitPrime(b, o, e)
+  ELSE IF ct = 3 THEN Map(U16(b, o, e), LAMBDA g : [t |-> "NamedGroup", g |-> g])
+  ELSE Err("Switch")
 DecEcParameters(b, o, e) ==
   Bind(U8(b, o, e), LAMBDA ct :
-    LET c == IF ct.v = 1 THEN DecExplicitPrime(b, ct.p, e)
-             ELSE IF ct.v = 3 THEN Map(U16(b, ct.p, e), LAMBDA g : [t |-> "NamedGroup", g |-> g])
-             ELSE Err("Switch")
-    IN Map(c, LAMBDA cv : [ct |-> ct.v, content |-> cv]))
+    Map(DecEcContent(ct.v, b, ct.p, e), LAMBDA cv : [ct |-> ct.v, content |-> cv]))
 
 DecEcdhParams(b, o, e) ==
   Bind(DecEcParameters(b, o, e), LAMBDA pr :
